@@ -245,7 +245,18 @@ def class_source(spec) -> str:
         if defect == 'unannotated':
             if not params:
                 params.append('yy: int = 0')
-            params.insert(0, 'zz')
+            # the parameter that lacks its annotation may be of any kind (the validators look at the signature)
+            uk = n.get('unannotated_kind', 'pos')
+            if uk == 'pos':
+                params.insert(0, 'zz')
+            elif uk == 'kwonly':
+                params.append('*, zz')
+            elif uk == 'kwonly_default':
+                params.append('*, zz=None')
+            elif uk == 'varkw':
+                params.append('**zz')
+            else:
+                params.append('*zz')
         names = [p for p in n.get('plain', [])] + [p for p, _ in n['marks']]
         kw = 'dict(' + ', '.join(f'{p}={p}' for p in names) + ')'
         extra = ''
@@ -502,6 +513,8 @@ def _gen_spec(rng, profile, n_min, n_max, fail_p, modes, retry_p, falsy_p, cb_p,
                 direct.add(dest)
                 anc = {a for a in ancestors(nodes, dest) - {0} if a < len(nodes) and not is_synthetic_free(nodes, a)}
                 start = rng.choice(sorted(anc | {dest}))
+                if rng.random() < 0.08:
+                    start = 0          # the input node itself restarts the subgraph: it gets the caller's kwargs + additional_data
                 mx = rng.randint(0, 3)
                 nodes[dest]['is_rec'] = True
                 nodes[dest]['recur_k'] = rng.randint(0, mx + 1)
